@@ -96,12 +96,10 @@ func (c *Collection) PutDDoc(_ context.Context, designDoc string, ddoc *sgbucket
 			}
 		}
 		// Remove in-memory view objects for the affected views:
-		for name := range c.viewCache {
-			if name.designDoc == designDoc {
-				delete(c.viewCache, name)
-			}
-		}
+		// (the cache is guarded by the collection's mutex: a concurrent View call fills it without holding the bucket's)
+		c.mutex.Lock()
 		c.forgetCachedViews(designDoc)
+		c.mutex.Unlock()
 		return nil
 	})
 	traceExit("PutDDoc", err, "ok")
@@ -117,7 +115,9 @@ func (c *Collection) DeleteDDoc(designDoc string) error {
 			if n, err2 := result.RowsAffected(); n == 0 && err2 == nil {
 				err = sgbucket.MissingError{Key: designDoc}
 			} else {
+				c.mutex.Lock()
 				c.forgetCachedViews(designDoc)
+				c.mutex.Unlock()
 			}
 		}
 		return err
